@@ -206,7 +206,7 @@ def tlc(module, cfg=None, env=None, workers=None, timeout=900, simulate=None, de
     cwd = cwd or SPEC
     cfg = cfg or (module + ".cfg")
     md = metadir or os.path.join("/var/tmp", "notqmail-verif.tlcmeta.%d.%d" % (os.getpid(), int(time.time() * 1000) % 10**9))
-    cmd = ["java", "-XX:+UseParallelGC", "-Xmx" + heap]
+    cmd = ["java", "-XX:+UseParallelGC", "-Xss64m", "-Xmx" + heap]
     if dfs_queue:
         cmd.append("-Dtlc2.tool.queue.IStateQueue=StateDeque")
     cmd += ["-cp", JAVA_CP, "tlc2.TLC", "-metadir", md, "-config", cfg]
